@@ -56,6 +56,7 @@ pub fn rerun(a: &Args, out: &mut Out) {
                         fuel: v["fuel"].as_i64().unwrap(),
                         fail_at: v["fail_at"].as_i64().unwrap(),
                         entry: stat(v["entry"].as_str().unwrap_or("dispatch_deadline")),
+                        far: v["far"].as_u64().unwrap_or(0) as usize,
                     };
                     fam_h::run_case(&c, out);
                 }
